@@ -46,6 +46,13 @@ def units(rng, tier):
             cmp = "value" if a == "dp" else None
         if a == "ilp":
             v = [min(x, 200) for x in v]
+            if k >= 2 and rng.random() < 0.5:
+                # the ILP's own options: entitlement weights of the bins (the model works with sums divided by them; the OUTPUT must
+                # still report the true sums) and copies
+                w = [rng.randint(1, 3) for _ in range(k)]
+                if len(set(w)) == 1:
+                    w[0] += 1
+                kw["weights"] = w
         if a in ("ckk", "snp", "rnp"):
             k = min(k, 5)
             cmp = "sums"
